@@ -101,6 +101,22 @@ def notFlushedPairs (st : St) : Nat := st.overlay.length
 /-- `GetSnapshot`: a snapshot of the parent and a copy of the tree -/
 def getSnapshot (st : St) : St := { under := snapshot st.under, overlay := st.overlay, sizeEst := 0 }
 
+/-! ### LazyFlushable -/
+
+/-- `LazyFlushable`: the underlying store is `devnull` (always empty) until the first `Flush` (or
+    `InitUnderlyingDb`) asks the producer for the real one; `real` = content of that store -/
+structure Lazy where
+  real : KV
+  inited : Bool := false
+  overlay : Overlay := []
+
+/-- the flushable store a lazy one currently is -/
+def Lazy.st (l : Lazy) : St := { under := if l.inited then l.real else [], overlay := l.overlay }
+
+/-- `LazyFlushable.Flush`: `initUnderlyingDb`, then `flush` into the real store -/
+def Lazy.flush (l : Lazy) : Lazy :=
+  { real := (Model.Flushable.flush ({ under := l.real, overlay := l.overlay } : St)).under, inited := true, overlay := [] }
+
 /-! ### the merged iterator -/
 
 /-- `isSuitable(key, prevKey)` → `(ok, continue)`; `prev = none` is the nil `prevKey` -/
